@@ -5,6 +5,7 @@
 
 use crate::observe::{LevelObs, Source};
 use crate::spec::*;
+use crate::spec::PvSpec;
 use serde::{Deserialize, Serialize};
 use std::collections::BTreeMap;
 use vcore::Tape;
@@ -157,7 +158,18 @@ fn conv_level(t: &mut Tape<'_>, o: &ConvOpts, depth: usize, name: &str) -> CmdSp
         if o.os_values && t.chance(1, 4) {
             a.parser = ParserSpec::OsStr;
         }
-        if o.defaults && t.chance(1, 4) {
+        if o.typed_parsers && a.default_missing_values.is_empty() && t.chance(1, 4) {
+            if t.chance(1, 3) {
+                a.parser = ParserSpec::I64 { lo: -10, hi: 10 };
+            } else {
+                a.parser = ParserSpec::Possible(vec![
+                    PvSpec { name: "fast".into(), aliases: vec!["quick".into()], ..Default::default() },
+                    PvSpec { name: "slow".into(), aliases: vec![], ..Default::default() },
+                    PvSpec { name: "Auto".into(), aliases: vec!["dflt-mode".into(), "A".into()], ..Default::default() },
+                ]);
+                a.ignore_case = t.bool();
+            }
+        } else if o.defaults && t.chance(1, 4) {
             a.default_values = vec![(*t.pick(&["dflt", "d1"])).to_owned()];
         }
         if o.overrides && t.chance(1, 4) {
@@ -228,6 +240,11 @@ fn conv_level(t: &mut Tape<'_>, o: &ConvOpts, depth: usize, name: &str) -> CmdSp
             ..Default::default()
         };
         a.num_args = Some(*t.pick(&[(1, usize::MAX), (0, usize::MAX), (1, usize::MAX), (2, 3), (1, 2)]));
+        if o.append_positionals && t.chance(1, 6) {
+            // repeatable single-value positional: every value is an occurrence of its own
+            a.action = Action::Append;
+            a.num_args = None;
+        }
         if o.os_values && t.chance(1, 3) {
             a.parser = ParserSpec::OsStr;
         }
@@ -490,7 +507,18 @@ pub fn gen_invocation(t: &mut Tape<'_>, spec: &CmdSpec, io: &InvOpts) -> Invocat
                     let top = hi.min(lo.max(1) + 2);
                     t.range(lo.max(1), top)
                 };
-                let values: Vec<Bytes> = if let ParserSpec::I64 { lo, hi } = &a.parser {
+                let values: Vec<Bytes> = if let ParserSpec::Possible(pvs) = &a.parser {
+                    (0..k)
+                        .map(|_| {
+                            let pv = t.pick(pvs);
+                            let mut s = if !pv.aliases.is_empty() && t.bool() { t.pick(&pv.aliases).clone() } else { pv.name.clone() };
+                            if a.ignore_case && t.bool() {
+                                s = s.chars().map(|c| if t.bool() { c.to_ascii_uppercase() } else { c.to_ascii_lowercase() }).collect();
+                            }
+                            s.into_bytes()
+                        })
+                        .collect()
+                } else if let ParserSpec::I64 { lo, hi } = &a.parser {
                     // typed option: stay inside the parser's language
                     let pool: Vec<i64> = [0i64, 5, 10, 7, 1].iter().copied().filter(|x| x >= lo && x <= hi).collect();
                     (0..k).map(|_| if pool.is_empty() { lo.to_string().into_bytes() } else { t.pick(&pool).to_string().into_bytes() }).collect()
@@ -535,7 +563,14 @@ pub fn gen_invocation(t: &mut Tape<'_>, spec: &CmdSpec, io: &InvOpts) -> Invocat
             let multi = hi > 1;
             // an Append positional may come as several occurrences (interleaved with options);
             // every occurrence has to satisfy num_args on its own
-            let noccs = if multi && p.action == Action::Append && !after_esc && t.chance(1, 2) { 2 } else { 1 };
+            let repeatable = p.action == Action::Append && hi == 1;
+            let noccs = if repeatable {
+                t.range(1, 3)
+            } else if multi && p.action == Action::Append && !after_esc && t.chance(1, 2) {
+                2
+            } else {
+                1
+            };
             let mut pieces: Vec<Vec<Bytes>> = Vec::new();
             for _ in 0..noccs {
                 let n = if multi { t.range(lo.max(1), hi.min(lo.max(1) + 2)) } else { 1 };
@@ -626,6 +661,11 @@ pub fn gen_invocation(t: &mut Tape<'_>, spec: &CmdSpec, io: &InvOpts) -> Invocat
                 if a1 == a2 {
                     // adjacent occurrences form one: keep it inside num_args
                     let hi = level.arg(a1).map(|a| a.value_range().1).unwrap_or(1);
+                    if hi == 1 {
+                        // a repeatable single-value positional: adjacent values stay separate occurrences
+                        merged.push(o);
+                        continue;
+                    }
                     for v in v2 {
                         if v1.len() < hi {
                             v1.push(v.clone());
@@ -671,6 +711,16 @@ pub fn gen_invocation(t: &mut Tape<'_>, spec: &CmdSpec, io: &InvOpts) -> Invocat
 pub struct SpellStats {
     /// input: do not use --flag / -S forms for subcommands (they are not on C08's list of equivalences)
     pub no_flag_subcommand_forms: bool,
+    /// input (fault injection): spell this option's single value separated even with require_equals
+    pub force_separated: Option<String>,
+    /// input (fault injection): spell this no-value flag as `--long=x`
+    pub flag_equals: Option<String>,
+    /// input (fault injection): spell this option in the `--long=value` form
+    pub force_equals: Option<String>,
+    /// input: the level (index into the invocation) the three hooks above apply to
+    pub hook_level: usize,
+    /// (internal) level being spelled
+    pub cur_level: usize,
     pub cluster: bool,
     pub attached: bool,
     pub delim_joined: bool,
@@ -694,6 +744,7 @@ pub fn spell(t: &mut Tape<'_>, spec: &CmdSpec, inv: &Invocation, stats: &mut Spe
     let mut cluster_entry = vec![false; inv.levels.len()];
     let mut level = spec;
     for (li, lv) in inv.levels.iter().enumerate() {
+        stats.cur_level = li;
         let mut i = 0;
         // a short-flag subcommand letter that opened this level's first cluster
         let mut cluster_prefix: Option<String> = None;
@@ -727,6 +778,17 @@ pub fn spell(t: &mut Tape<'_>, spec: &CmdSpec, inv: &Invocation, stats: &mut Spe
                             j += 1;
                         } else {
                             break;
+                        }
+                    }
+                    if stats.cur_level == stats.hook_level && stats.flag_equals.as_deref() == Some(arg.as_str()) && cluster_prefix.is_none() {
+                        argv.push(spell_flag(t, a, level, stats).into_bytes());
+                        i += 1;
+                        continue;
+                    }
+                    if let (Some(fe), true) = (&stats.flag_equals, stats.cur_level == stats.hook_level) {
+                        // keep the marked flag out of clusters
+                        if let Some(p) = shorts_run.iter().position(|f| f.id == *fe) {
+                            shorts_run.truncate(p);
                         }
                     }
                     let want_cluster = (cluster_prefix.is_some() && !shorts_run.is_empty()) || (shorts_run.len() >= 2 && t.chance(2, 3));
@@ -971,6 +1033,11 @@ fn pick_long(t: &mut Tape<'_>, a: &ArgSpec, level: &CmdSpec, stats: &mut SpellSt
 }
 
 fn spell_flag(t: &mut Tape<'_>, a: &ArgSpec, level: &CmdSpec, stats: &mut SpellStats) -> String {
+    if stats.cur_level == stats.hook_level && stats.flag_equals.as_deref() == Some(a.id.as_str()) {
+        if let Some(l) = &a.long {
+            return format!("--{l}=x");
+        }
+    }
     let has_short = a.short.is_some() || !a.short_aliases.is_empty();
     let long = pick_long(t, a, level, stats);
     match (long, has_short) {
@@ -1079,6 +1146,24 @@ fn spell_opt(
         None
     };
     if let Some(v) = single {
+        if stats.cur_level == stats.hook_level && stats.force_separated.as_deref() == Some(a.id.as_str()) {
+            if !sep_ok(&v, a) {
+                return None;
+            }
+            out.push(switch.into_bytes());
+            out.push(v);
+            if hi > 1 && !closed_by_next {
+                out.push(term.clone()?);
+            }
+            return Some(out);
+        }
+        if stats.cur_level == stats.hook_level && stats.force_equals.as_deref() == Some(a.id.as_str()) {
+            let mut tok = switch.into_bytes();
+            tok.push(b'=');
+            tok.extend_from_slice(&v);
+            out.push(tok);
+            return Some(out);
+        }
         // forms for exactly one raw token
         let mut forms: Vec<u8> = Vec::new();
         // 0: switch=v   1: -sv   2: switch v
